@@ -247,6 +247,13 @@ func scribble(c *CfgCore) {
 			m[poisonS] = poisonI
 		}
 	}
+	for i := range c.Pairs {
+		for j := range c.Pairs[i] {
+			if c.Pairs[i][j] != nil {
+				*c.Pairs[i][j] = poisonI
+			}
+		}
+	}
 	for _, m := range c.MA {
 		if m != nil {
 			m[poisonS] = poisonI
